@@ -400,3 +400,17 @@ let () =
       let parts = List.map show obs in
       String.concat "," parts ^ " " ^ hex_of_bytes (wsink_data pfin.bw_sink)
     | _ -> "badargs")
+
+(* xk1 <hexchunk|-> <hexdata|-> : contract K1 of the XFLATE round-trip theorems
+   (XFlate/RoundTripStmt.v) evaluated on what the REAL compressor emitted after a Flush:
+   a sequence of complete non-final blocks for exactly the data, sync marker, >= 5 bytes *)
+let () =
+  register "xk1" (fun args -> match args with
+    | [chex; dhex] ->
+      let c = if chex = "-" then [] else bytes_of_hex chex in
+      let d = if dhex = "-" then [] else bytes_of_hex dhex in
+      let ok_blocks = (match nonfinal_blocks c with
+        | Some o -> List.length o = List.length d && List.for_all2 (fun a b -> int_of_n a = int_of_n b) o d
+        | None -> false) in
+      if ok_blocks && is_sync c && List.length c >= 5 then "k1-ok" else "k1-VIOLATED"
+    | _ -> "badargs")
